@@ -25,18 +25,90 @@ def fillSpecAt (ts : List (K × K)) (i : Nat) : K × K :=
     else t.2
   (s, e)
 
+theorem fillTimesAux_nil (cur : K × K) : fillTimesAux cur [] = [normTime cur] := by
+  rw [fillTimesAux]
+
+theorem fillTimesAux_cons (cur nxt : K × K) (rest : List (K × K)) :
+    fillTimesAux cur (nxt :: rest) =
+      normTime (if cur.2 < 0 ∧ 0 ≤ nxt.1 then (cur.1, nxt.1) else cur) ::
+        fillTimesAux (if 0 ≤ cur.2 ∧ nxt.1 < 0 then (cur.2, nxt.2) else nxt) rest := by
+  rw [fillTimesAux]
+  split_ifs with h1 h2 h2
+  · exact absurd h1.1 (not_lt.mpr h2.1)
+  · rfl
+  · rfl
+  · rfl
+
+theorem fillTimesAux_length (rest : List (K × K)) : ∀ cur : K × K,
+    (fillTimesAux cur rest).length = rest.length + 1 := by
+  induction rest with
+  | nil => intro cur; rw [fillTimesAux_nil]; rfl
+  | cons nxt rest ih => intro cur; rw [fillTimesAux_cons, List.length_cons, ih, List.length_cons]
+
 theorem fillTimes_length (ts : List (K × K)) : (fillTimes ts).length = ts.length := by
-  sorry
+  cases ts with
+  | nil => rfl
+  | cons t rest => rw [fillTimes, fillTimesAux_length, List.length_cons]
+
+theorem fillSpecAt_cons_succ (a : K × K) (l : List (K × K)) (i : Nat) (h : 0 < i ∨ a.2 < 0) :
+    fillSpecAt (a :: l) (i + 1) = fillSpecAt l i := by
+  cases i with
+  | zero =>
+    have ha : a.2 < 0 := by simpa using h
+    have ha' : ¬ (0 ≤ a.2) := not_le.mpr ha
+    simp [fillSpecAt, ha', show (2 < l.length + 1) ↔ (1 < l.length) by omega]
+  | succ j =>
+    simp [fillSpecAt]
+
+theorem fillTimesAux_spec (rest : List (K × K)) : ∀ (prev cur : K × K) (i : Nat),
+    i < rest.length + 1 →
+    (fillTimesAux (if 0 ≤ prev.2 ∧ cur.1 < 0 then (prev.2, cur.2) else cur) rest).getD i (0, 0) =
+      fillSpecAt (prev :: cur :: rest) (i + 1) := by
+  induction rest with
+  | nil =>
+    intro prev cur i hi
+    have : i = 0 := by simpa using hi
+    subst this
+    rw [fillTimesAux_nil]
+    rcases lt_or_ge prev.2 0 with h1 | h1 <;> rcases lt_or_ge cur.1 0 with h2 | h2 <;>
+      rcases lt_or_ge cur.2 0 with h3 | h3 <;>
+      simp [fillSpecAt, normTime, h1, h2, h3, not_le.mpr, not_lt.mpr]
+  | cons nxt rest ih =>
+    intro prev cur i hi
+    rw [fillTimesAux_cons]
+    cases i with
+    | zero =>
+      rcases lt_or_ge prev.2 0 with h1 | h1 <;> rcases lt_or_ge cur.1 0 with h2 | h2 <;>
+        rcases lt_or_ge cur.2 0 with h3 | h3 <;> rcases lt_or_ge nxt.1 0 with h4 | h4 <;>
+        simp [fillSpecAt, normTime, h1, h2, h3, h4, not_le.mpr, not_lt.mpr]
+    | succ j =>
+      rw [List.getD_cons_succ]
+      have h2 : (if 0 ≤ prev.2 ∧ cur.1 < 0 then (prev.2, cur.2) else cur).2 = cur.2 := by
+        split_ifs <;> rfl
+      rw [h2, ih cur nxt j (by simpa using hi)]
+      exact (fillSpecAt_cons_succ prev _ (j + 1) (Or.inl (Nat.succ_pos j))).symm
 
 theorem fillTimes_spec (ts : List (K × K)) (i : Nat) (hi : i < ts.length) :
     (fillTimes ts).getD i (0, 0) = fillSpecAt ts i := by
-  sorry
+  cases ts with
+  | nil => simp at hi
+  | cons t rest =>
+    have h := fillTimesAux_spec rest ((0 : K), (-1 : K)) t i (by simpa using hi)
+    have hneg : ¬ ((0 : K) ≤ -1) := by simp
+    simp only [hneg, false_and, if_false] at h
+    rw [fillTimes, h]
+    exact fillSpecAt_cons_succ _ _ _ (Or.inr (by simp))
 
 /-- the frame-count shift: for a natural `c`, rounding `x − c` is rounding `x` minus `c`
     (as long as the result stays at least 1, i.e. above the `max 1` floor). -/
 theorem roundMax1_sub_nat (x : K) (c : Nat) (h : 1 ≤ ⌊x + 1 / 2⌋₊ - c) :
     RoundNat.roundMax1 (x - (c : K)) = RoundNat.roundMax1 x - c := by
-  sorry
+  have hfl : ⌊x - (c : K) + 1 / 2⌋₊ = ⌊x + 1 / 2⌋₊ - c := by
+    have e : x - (c : K) + 1 / 2 = x + 1 / 2 - (c : K) := by ring
+    rw [e, ← Int.floor_toNat, ← Int.floor_toNat, Int.floor_sub_natCast]
+    omega
+  rw [roundMax1_def, roundMax1_def, hfl]
+  omega
 
 /-- Index (in labels) of the first label of the group closed by label `i`: one past the last label
     before `i` whose end is known. -/
@@ -44,13 +116,183 @@ def groupStart (times : List (K × K)) : Nat → Nat
   | 0 => 0
   | i + 1 => if 0 ≤ (times.getD i (0, 0)).2 then i + 1 else groupStart times i
 
+/-- `groupStart` relative to a loop state: `g0` is the current group start, `k` labels consumed. -/
+def gStart (g0 k : Nat) (times : List (K × K)) : Nat → Nat
+  | 0 => g0
+  | j + 1 => if 0 ≤ (times.getD j (0, 0)).2 then k + j + 1 else gStart g0 k times j
+
+theorem gStart_cons (g0 k : Nat) (t : K × K) (rest : List (K × K)) : ∀ j,
+    gStart g0 k (t :: rest) (j + 1) = gStart (if 0 ≤ t.2 then k + 1 else g0) (k + 1) rest j
+  | 0 => by simp [gStart]
+  | j + 1 => by
+    rw [gStart, gStart_cons g0 k t rest j, List.getD_cons_succ]
+    conv_rhs => rw [gStart]
+    rw [show k + (j + 1) + 1 = k + 1 + j + 1 by omega]
+
+theorem groupStart_eq (times : List (K × K)) : ∀ i, groupStart times i = gStart 0 0 times i
+  | 0 => rfl
+  | i + 1 => by rw [groupStart, gStart, groupStart_eq times i, Nat.zero_add]
+
+/-- The cumulative law at one label: `g` group start, `top` = label index + 1. -/
+def CumAt (nstate : Nat) (d : List Nat) (e : K) (g top : Nat) : Prop :=
+  let c := (d.take (g * nstate)).sum
+  let m := (top - g) * nstate
+  (m < RoundNat.roundMax1 (e - (c : K)) →
+      (d.take (top * nstate)).sum = c + RoundNat.roundMax1 (e - (c : K))) ∧
+  (RoundNat.roundMax1 (e - (c : K)) ≤ m → ∀ x ∈ (d.drop (g * nstate)).take m, x = 1)
+
+theorem alignLoop_nil (b : Bool) (ps : List (MeanVari K)) (nstate fc ns st : Nat) (acc : List Nat) :
+    alignLoop b ps nstate ([] : List (K × K)) fc ns st acc = .ok acc := by
+  rw [alignLoop]
+
+theorem alignLoop_known (b : Bool) (ps : List (MeanVari K)) (nstate fc ns st : Nat) (acc : List Nat)
+    (s e : K) (rest : List (K × K)) (he : 0 ≤ e) (h1 : st + nstate ≤ ps.length)
+    (h2 : ns ≤ st + nstate) (cur : List Nat)
+    (hc : estimateWithFrameLength ((ps.drop ns).take (st + nstate - ns)) (e - (fc : K)) = .ok cur) :
+    alignLoop b ps nstate ((s, e) :: rest) fc ns st acc =
+      alignLoop b ps nstate rest (fc + cur.sum) (st + nstate) (st + nstate) (acc ++ cur) := by
+  rw [alignLoop]
+  simp only [he, h1, h2, and_self, if_true, hc]
+
+theorem alignLoop_unknown_mid (b : Bool) (ps : List (MeanVari K)) (nstate fc ns st : Nat)
+    (acc : List Nat) (s e : K) (rest : List (K × K)) (he : ¬ 0 ≤ e) (hr : rest ≠ []) :
+    alignLoop b ps nstate ((s, e) :: rest) fc ns st acc =
+      alignLoop b ps nstate rest fc ns (st + nstate) acc := by
+  rw [alignLoop]
+  have : rest.isEmpty = false := by cases rest <;> simp_all
+  simp only [he, this, if_false, Bool.false_eq_true]
+
+theorem alignLoop_unknown_last (b : Bool) (ps : List (MeanVari K)) (nstate fc ns st : Nat)
+    (acc : List Nat) (s e : K) (he : ¬ 0 ≤ e) (h1 : st + nstate ≤ ps.length)
+    (h2 : ns ≤ st + nstate) :
+    alignLoop b ps nstate [(s, e)] fc ns st acc =
+      .ok (if b then acc ++ estimateDuration ((ps.drop ns).take (st + nstate - ns)) (0 : K)
+        else acc) := by
+  rw [alignLoop]
+  simp only [he, h1, h2, if_false, List.isEmpty_nil, if_true, and_self, alignLoop_nil]
+
+theorem alignLoop_spec (ps : List (MeanVari K)) (nstate : Nat) (hn : 0 < nstate) :
+    ∀ (times : List (K × K)) (k g0 : Nat) (acc : List Nat),
+      g0 ≤ k → acc.length = g0 * nstate → (times = [] → g0 = k) →
+      ps.length = (k + times.length) * nstate → (∀ x ∈ acc, 1 ≤ x) →
+      ∃ r, alignLoop true ps nstate times acc.sum (g0 * nstate) (k * nstate) acc = .ok (acc ++ r) ∧
+        (acc ++ r).length = ps.length ∧ (∀ x ∈ r, 1 ≤ x) ∧
+        ∀ j, j < times.length → 0 ≤ (times.getD j (0, 0)).2 →
+          CumAt nstate (acc ++ r) (times.getD j (0, 0)).2 (gStart g0 k times j) (k + j + 1) := by
+  intro times
+  induction times with
+  | nil =>
+    intro k g0 acc hg hacc hnil hps hpos
+    refine ⟨[], by rw [alignLoop_nil, List.append_nil], ?_, by simp, by simp⟩
+    rw [List.append_nil, hacc, hps, hnil rfl]; simp
+  | cons t rest ih =>
+    intro k g0 acc hg hacc hnil hps hpos
+    obtain ⟨s, e⟩ := t
+    have hgk : g0 * nstate ≤ k * nstate := Nat.mul_le_mul_right _ hg
+    have hps' : ps.length = k * nstate + rest.length * nstate + nstate := by
+      rw [hps, List.length_cons]; ring
+    have hsm : (k + 1) * nstate = k * nstate + nstate := Nat.succ_mul _ _
+    have h1 : k * nstate + nstate ≤ ps.length := by omega
+    have h2 : g0 * nstate ≤ k * nstate + nstate := by omega
+    have hglen : ((ps.drop (g0 * nstate)).take (k * nstate + nstate - g0 * nstate)).length =
+        k * nstate + nstate - g0 * nstate := by
+      rw [List.length_take, List.length_drop]; omega
+    by_cases he : 0 ≤ e
+    · -- known end
+      obtain ⟨cur, hcur, hlen, hcpos, hle, hgt⟩ := estimateWithFrameLength_spec
+        ((ps.drop (g0 * nstate)).take (k * nstate + nstate - g0 * nstate)) (e - (acc.sum : K))
+      rw [hglen] at hlen hle hgt
+      have hacl : (acc ++ cur).length = (k + 1) * nstate := by
+        rw [List.length_append, hacc, hlen]; omega
+      obtain ⟨r', hr', hlen', hpos', hcum'⟩ := ih (k + 1) (k + 1) (acc ++ cur) le_rfl hacl
+        (fun _ => rfl) (by rw [hps, List.length_cons]; ring)
+        (by
+          intro x hx
+          rcases List.mem_append.mp hx with hx | hx
+          · exact hpos x hx
+          · exact hcpos x hx)
+      rw [List.sum_append, hsm] at hr'
+      refine ⟨cur ++ r', ?_, ?_, ?_, ?_⟩
+      · rw [alignLoop_known true ps nstate _ _ _ acc s e rest he h1 h2 cur hcur, hr',
+          List.append_assoc]
+      · rw [← List.append_assoc]; exact hlen'
+      · intro x hx
+        rcases List.mem_append.mp hx with hx | hx
+        · exact hcpos x hx
+        · exact hpos' x hx
+      · intro j hj hej
+        cases j with
+        | zero =>
+          have hm : (k + 0 + 1 - g0) * nstate = k * nstate + nstate - g0 * nstate := by
+            rw [Nat.add_zero, Nat.sub_mul, hsm]
+          have hT1 : (acc ++ (cur ++ r')).take (g0 * nstate) = acc := List.take_left' hacc
+          have hT2 : (acc ++ (cur ++ r')).take ((k + 0 + 1) * nstate) = acc ++ cur := by
+            rw [← List.append_assoc]; exact List.take_left' hacl
+          have hT3 : ((acc ++ (cur ++ r')).drop (g0 * nstate)).take
+              (k * nstate + nstate - g0 * nstate) = cur := by
+            rw [List.drop_left' hacc]; exact List.take_left' hlen
+          have hne : (List.take (k * nstate + nstate - g0 * nstate) (List.drop (g0 * nstate) ps)) ≠ [] := by
+            intro h; rw [h] at hglen; simp at hglen; omega
+          show CumAt nstate (acc ++ (cur ++ r')) e g0 (k + 0 + 1)
+          unfold CumAt
+          simp only [hT1, hT2, hm, hT3]
+          refine ⟨fun hlt => ?_, fun hle' => ?_⟩
+          · rw [List.sum_append, hgt hne hlt]
+          · rw [hle hle']; intro x hx; exact List.eq_of_mem_replicate hx
+        | succ j' =>
+          have := hcum' j' (by simpa using hj) (by simpa using hej)
+          rw [gStart_cons, if_pos he, List.getD_cons_succ,
+            show k + (j' + 1) + 1 = k + 1 + j' + 1 by omega, ← List.append_assoc]
+          exact this
+    · -- unknown end
+      by_cases hr : rest = []
+      · subst hr
+        refine ⟨estimateDuration ((ps.drop (g0 * nstate)).take
+          (k * nstate + nstate - g0 * nstate)) (0 : K), ?_, ?_, ?_, ?_⟩
+        · rw [alignLoop_unknown_last true ps nstate _ _ _ acc s e he h1 h2]; simp
+        · rw [List.length_append, estimateDuration_length, hglen, hacc, hps']; simp; omega
+        · exact estimateDuration_pos _ _
+        · intro j hj hej
+          have : j = 0 := by simpa using hj
+          subst this
+          exact absurd hej he
+      · obtain ⟨r', hr', hlen', hpos', hcum'⟩ := ih (k + 1) g0 acc (by omega) hacc
+          (fun h => absurd h hr) (by rw [hps, List.length_cons]; ring) hpos
+        rw [hsm] at hr'
+        refine ⟨r', ?_, hlen', hpos', ?_⟩
+        · rw [alignLoop_unknown_mid true ps nstate _ _ _ acc s e rest he hr, hr']
+        · intro j hj hej
+          cases j with
+          | zero => exact absurd hej he
+          | succ j' =>
+            have := hcum' j' (by simpa using hj) (by simpa using hej)
+            rw [gStart_cons, if_neg he, List.getD_cons_succ,
+              show k + (j' + 1) + 1 = k + 1 + j' + 1 by omega]
+            exact this
+
+theorem createWithAlignment_spec (ps : List (MeanVari K)) (nstate : Nat) (times : List (K × K))
+    (hn : 0 < nstate) (hlen : ps.length = times.length * nstate) :
+    ∃ d, createWithAlignment true ps nstate times = .ok d ∧ d.length = ps.length ∧
+      (∀ x ∈ d, 1 ≤ x) ∧
+      ∀ j, j < times.length → 0 ≤ (times.getD j (0, 0)).2 →
+        CumAt nstate d (times.getD j (0, 0)).2 (groupStart times j) (j + 1) := by
+  obtain ⟨r, hr, hl, hpos, hcum⟩ := alignLoop_spec ps nstate hn times 0 0 [] le_rfl (by simp)
+    (fun _ => rfl) (by rw [Nat.zero_add, hlen]) (by simp)
+  simp only [List.sum_nil, Nat.zero_mul, List.nil_append] at hr hl hcum
+  refine ⟨r, hr, hl, hpos, fun j hj hej => ?_⟩
+  have := hcum j hj hej
+  rw [Nat.zero_add] at this
+  rw [groupStart_eq]
+  exact this
+
 /-- With the repaired tail handling, alignment returns one duration per state for every label,
     each at least one frame (no label vanishes), and never panics on consistent sizes. -/
 theorem align_keeps_all (ps : List (MeanVari K)) (nstate : Nat) (times : List (K × K))
     (hn : 0 < nstate) (hlen : ps.length = times.length * nstate) :
     ∃ d, createWithAlignment true ps nstate times = .ok d ∧ d.length = ps.length ∧
       ∀ x ∈ d, 1 ≤ x := by
-  sorry
+  obtain ⟨d, h1, h2, h3, -⟩ := createWithAlignment_spec ps nstate times hn hlen
+  exact ⟨d, h1, h2, h3⟩
 
 /-- The cumulative law. For a label `i` with known end `e` (in frames): let `g` be the start of its
     group, `c` the frames generated before the group, `m` the number of states in the group.
@@ -68,6 +310,9 @@ theorem align_cumulative (ps : List (MeanVari K)) (nstate : Nat) (times : List (
         (d.take ((i + 1) * nstate)).sum = c + RoundNat.roundMax1 (e - (c : K))) ∧
     (RoundNat.roundMax1 (e - (c : K)) ≤ m →
         ∀ x ∈ (d.drop (g * nstate)).take m, x = 1) := by
-  sorry
+  obtain ⟨d', h1, -, -, hcum⟩ := createWithAlignment_spec ps nstate times hn hlen
+  rw [hd, Outcome.ok.injEq] at h1
+  subst h1
+  exact hcum i hi he
 
 end Jb
